@@ -137,14 +137,17 @@ package syncer
 //@   requires inv: ghostInv()
 //@   requires not_in_txn: ghost_inTxn == 0
 //@   requires synced_le_last: uint64(lastTxnID) <= ghost_last
-//@   requires synced_unpub: uint64(lastTxnID) < ghost_unpub
+//@   requires synced_unpub: !s.opt.ReceiveOnly ==> uint64(lastTxnID) < ghost_unpub
 //@   requires synced_uncap: !s.lc.SchemaTracksChanges ==> uint64(lastTxnID) < ghost_uncap
 //@   modifies *
 //@   ensures inv: ghostInv()
 //@   ensures ret_le_last: err == nil ==> uint64(txnID) <= ghost_last
-//@   ensures ret_below_unpub: err == nil && !localChanged ==> uint64(txnID) < ghost_unpub
+//@   ensures last_monotone: ghost_last >= old(ghost_last)
+//@   ensures ret_below_unpub: err == nil && !localChanged && !s.opt.ReceiveOnly ==> uint64(txnID) < ghost_unpub
 //@   ensures ret_below_uncap: err == nil && !localChanged && !old(s.lc.SchemaTracksChanges) ==> uint64(txnID) < ghost_uncap
-//@   ensures unpub_kept: err == nil && localChanged ==> uint64(lastTxnID) < ghost_unpub
+//@   ensures unpub_kept: err == nil && localChanged && !s.opt.ReceiveOnly ==> uint64(lastTxnID) < ghost_unpub
+//@   ensures uncap_kept: err == nil && localChanged && !s.lc.SchemaTracksChanges ==> uint64(lastTxnID) < ghost_uncap
+//@   ensures not_in_txn: ghost_inTxn == 0
 
 // A yield point: the application may commit here (same effect as at every
 // call into the environment; the hook exists only to replay schedules).
@@ -175,7 +178,37 @@ package syncer
 //@   loop 0 invariant retry: i != 0 ==> err != nil
 //@   ensures inv: ghostInv()
 //@   ensures ret_le_last: err == nil ==> uint64(txnID) <= ghost_last
+//@   ensures ret_ge_entry_last: err == nil ==> uint64(txnID) >= old(ghost_last)
+//@   ensures last_monotone: ghost_last >= old(ghost_last)
+//@   ensures not_in_txn: ghost_inTxn == 0
 //@   ensures nil_only_if_stored: err == nil && !s.opt.ReceiveOnly ==> ghost_nstore == old(ghost_nstore) + 1
 //@   ensures ret_below_unpub: err == nil && !s.opt.ReceiveOnly ==> uint64(txnID) < ghost_unpub
 //@   ensures ret_below_uncap: err == nil && !s.lc.SchemaTracksChanges ==> uint64(txnID) < ghost_uncap
 //@   ensures receive_only_no_store: s.opt.ReceiveOnly ==> ghost_nstore == old(ghost_nstore)
+
+// ---------------------------------------------------------------- syncLoop
+
+//@ func (is *InstanceSet) Contains
+//@   trusted
+//@   pure
+//@   ghost lastContains := ite(r0, 1, 0)
+
+//@ func (s *Syncer) syncLoop
+//@   requires inv: ghostInv()
+//@   requires not_in_txn: ghost_inTxn == 0
+//@   requires retry_budget: s.c.StorageRetryCount >= 1 || s.c.StorageRetryForever
+//@   modifies *
+//@   loop 2 invariant inv: ghostInv()
+//@   loop 2 invariant not_in_txn: ghost_inTxn == 0
+//@   loop 2 invariant I0: uint64(lastSyncedTxnID) <= ghost_last
+//@   loop 2 invariant I1: !s.opt.ReceiveOnly ==> uint64(lastSyncedTxnID) < ghost_unpub
+//@   loop 2 invariant I2: !s.lc.SchemaTracksChanges ==> uint64(lastSyncedTxnID) < ghost_uncap
+//@   loop 3 invariant inv: ghostInv() && ghost_inTxn == 0
+//@   loop 3 invariant I0: uint64(lastSyncedTxnID) <= ghost_last
+//@   loop 3 invariant I1: !s.opt.ReceiveOnly ==> uint64(lastSyncedTxnID) < ghost_unpub
+//@   loop 3 invariant I2: !s.lc.SchemaTracksChanges ==> uint64(lastSyncedTxnID) < ghost_uncap
+//@   after_call lmdb.(*Env).Info#1 ghost loc_info := ghost_last
+//@   after_call lmdb.(*Env).Info#1 ghost loc_waitOwn := 0
+//@   after_call syncer.(*InstanceSet).Contains#2 ghost loc_waitOwn := ghost_lastContains
+//@   at_call utils.SleepContext#0 assert idle_published: !s.opt.ReceiveOnly && ghost_loc_info <= uint64(lastSyncedTxnID) ==> ghost_unpub > ghost_loc_info
+//@   at_call utils.SleepContext#0 assert idle_only_waiting_own: ghost_loc_info > uint64(lastSyncedTxnID) ==> ghost_loc_waitOwn == 1
